@@ -248,6 +248,10 @@ SUMMARY = {
            "an extra field that reuses an existing column name: N+M header cells, N+M-1 row cells"),
  "C20-f": ("post_process uses best_individual([individual, incumbent]) and 'is not incumbent': a tie counts as an improvement",
            "only_record_best_individuals=True and a distinct individual whose fitness equals the incumbent's"),
+ "C10-e": ("choice_weighted turns its weights argument into running totals in place",
+           "WeightedStringHandler passes numpy row views of its probability matrix: every creation rewrites the refinement (zero-probability characters become creatable)"),
+ "C10-f": ("SGE create_genotype computes its gene keys with symbols = self.grammar.all_nodes; symbols |= mentioned (in-place union on the grammar's own set)",
+           "the SGE representation on a grammar with a generic or refined field, then any reader of all_nodes (get_max_node_depth raises KeyError)"),
 }
 
 
